@@ -5,7 +5,10 @@
    compute/misc/data_containers.py SingleMetricMidpointInfo (C18).  No proofs here.
    Coordinates, values and squared distances are exact rationals; the code compares squared distances only
    (it never takes a square root of a distance), so argmax/argmin are taken on squared distances, exactly as in
-   the source.  The one square root of the source, sqrt(one_hot_dim), is an explicit argument `tgt`. *)
+   the source.  The one square root of the source, sqrt(one_hot_dim), is an explicit argument `tgt`.
+   The view ranks failed observations strictly after every successful one:
+     values = numpy.where(self.points_sampled_failures, numpy.inf, self.points_sampled_for_af_values[:, 0])
+   so the values the view compares are extended values `xv` (a finite scaled value, or +inf for a failure). *)
 From Coq Require Import List QArith Qabs Bool Arith.
 Import ListNotations.
 Open Scope Q_scope.
@@ -174,24 +177,41 @@ Definition scaled_values (maximize : bool) (vals : list Q) (fails : list bool) :
   end.
 
 (* ---------------------------------------------------------------- MultisolutionBestAssignments.view *)
+(* extended values: a finite double or +inf.  `vltb a b` is the IEEE comparison a < b (inf < inf is false). *)
+Inductive xv := PInf | Val (q : Q).
+Definition vltb (a b : xv) : bool :=
+  match a, b with
+  | PInf, _ => false
+  | Val _, PInf => true
+  | Val x, Val y => Qltb x y
+  end.
+Definition vargmin (l : list xv) : nat := argbest (fun x best => vltb x best) l.
+(* the order read off the comparison the code makes: a <= b iff not (b < a) *)
+Definition vlt (a b : xv) : Prop := vltb a b = true.
+Definition vle (a b : xv) : Prop := vltb b a = false.
+
+(* values = numpy.where(self.points_sampled_failures, numpy.inf, self.points_sampled_for_af_values[:, 0]) *)
+Definition masked_values (scaled : list Q) (fails : list bool) : list xv :=
+  map (fun vf : Q * bool => if snd vf then PInf else Val (fst vf)) (combine scaled fails).
+
 (* for i, p in enumerate(partition): if best_value[p] is None or values[i] < best_value[p]: ... *)
-Definition scan_step (values : list Q) (st : list (option (nat * Q))) (ip : nat * nat) : list (option (nat * Q)) :=
+Definition scan_step (values : list xv) (st : list (option (nat * xv))) (ip : nat * nat) : list (option (nat * xv)) :=
   let '(i, p) := ip in
-  let v := nth i values 0 in
+  let v := nth i values PInf in
   match nth p st None with
   | None => set_nth p (Some (i, v)) st
-  | Some (_, bv) => if Qltb v bv then set_nth p (Some (i, v)) st else st
+  | Some (_, bv) => if vltb v bv then set_nth p (Some (i, v)) st else st
   end.
-Definition cluster_scan (values : list Q) (partition : list nat) (k : nat) : list (option (nat * Q)) :=
+Definition cluster_scan (values : list xv) (partition : list nat) (k : nat) : list (option (nat * xv)) :=
   fold_left (scan_step values) (combine (seq 0 (length partition)) partition) (repeat None k).
 
 Fixpoint nodupb (l : list nat) : bool :=
   match l with [] => true | x :: r => negb (existsb (Nat.eqb x) r) && nodupb r end.
 
 (* the part of view() after the values and the search points are formed; None = AssertionError *)
-Definition best_assignments (values : list Q) (spts : list point) (k : nat) : option (list nat) :=
+Definition best_assignments (values : list xv) (spts : list point) (k : nat) : option (list nat) :=
   if negb (Nat.ltb 1 k) then None else
-  let first := qargmin values in
+  let first := vargmin values in
   match k_center spts first k with
   | None => None
   | Some (_, partition) =>
@@ -213,7 +233,8 @@ Definition view (cs : list comp) (tgt : Q) (points : list point) (vals : list Q)
   (maximize : bool) (k : nat) : option (list nat) :=
   match all_some (map (to_one_hot cs) points) with
   | None => None
-  | Some ohs => best_assignments (scaled_values maximize vals fails) (map (search_point cs tgt) ohs) k
+  | Some ohs =>
+      best_assignments (masked_values (scaled_values maximize vals fails) fails) (map (search_point cs tgt) ohs) k
   end.
 
 (* ---------------------------------------------------------------- decidable specifications, evaluated on the
@@ -252,22 +273,44 @@ Definition partition_spec_b (pts : list point) (cs part : list nat) : bool :=
      else forallb (fun j => Qltb (d2ix pts (nth c cs O) t) (d2ix pts (nth j cs O) t)) (seq 0 c)))
     (seq 0 n).
 
-(* best indices: k distinct indices in range, entry c lies in cluster c and is the first minimum of the values
+(* best indices: k distinct indices in range, entry c lies in cluster c and is the first minimum of the (extended) values
    over cluster c; entry 0 is the first minimum of all values *)
-Definition best_spec_b (values : list Q) (part : list nat) (k : nat) (best : list nat) : bool :=
+Definition best_spec_b (values : list xv) (part : list nat) (k : nat) (best : list nat) : bool :=
   let n := length part in
   Nat.eqb (length best) k && nodupb best && forallb (fun i => Nat.ltb i n) best &&
-  Nat.eqb (hd n best) (qargmin values) &&
+  Nat.eqb (hd n best) (vargmin values) &&
   forallb (fun c =>
     let b := nth c best O in
     Nat.eqb (nth b part k) c &&
     forallb (fun t => negb (Nat.eqb (nth t part k) c) ||
-                      (if Nat.ltb t b then Qltb (nth b values 0) (nth t values 0)
-                       else Qle_bool (nth b values 0) (nth t values 0)))
+                      (if Nat.ltb t b then vltb (nth b values PInf) (nth t values PInf)
+                       else negb (vltb (nth t values PInf) (nth b values PInf))))
             (seq 0 n))
     (seq 0 k).
 
 (* the weaker statement visible through the endpoint alone: k distinct valid indices containing a best value *)
-Definition endpoint_spec_b (values : list Q) (n k : nat) (best : list nat) : bool :=
+Definition endpoint_spec_b (values : list xv) (n k : nat) (best : list nat) : bool :=
   Nat.eqb (length best) k && nodupb best && forallb (fun i => Nat.ltb i n) best &&
-  memb (qargmin values) best.
+  memb (vargmin values) best.
+
+(* the STRICT reading on the RAW values (no scaled value involved), for a history with at least one success:
+   `rbetter a b` = raw value a is strictly better than raw value b for the objective.  Entry 0 is a success no success beats
+   and every earlier success is strictly worse; for every cluster c with representative b: if the cluster holds a success
+   then b is a success of the cluster that none of its successes beats, every earlier success of the cluster being strictly
+   worse; if it holds none, b is its first member. *)
+Definition rbetter (maximize : bool) (a b : Q) : bool := if maximize then Qltb b a else Qltb a b.
+Definition strict_spec_b (maximize : bool) (vals : list Q) (fails : list bool) (part : list nat) (k : nat) (best : list nat) : bool :=
+  let n := length part in
+  let ok t := negb (nth t fails true) in
+  let v t := nth t vals 0 in
+  let b0 := hd n best in
+  ok b0 &&
+  forallb (fun t => negb (ok t) || (if Nat.ltb t b0 then rbetter maximize (v b0) (v t) else negb (rbetter maximize (v t) (v b0)))) (seq 0 n) &&
+  forallb (fun c =>
+    let b := nth c best O in
+    let members := filter (fun t => Nat.eqb (nth t part k) c) (seq 0 n) in
+    if existsb ok members
+    then ok b && forallb (fun t => negb (ok t) || (if Nat.ltb t b then rbetter maximize (v b) (v t)
+                                                   else negb (rbetter maximize (v t) (v b)))) members
+    else Nat.eqb (hd n members) b)
+    (seq 0 k).
